@@ -1841,6 +1841,16 @@ impl<K: AsRef<Key>> ServerError<K> {
         Octs: Octets + ?Sized,
         Target: Composer,
     {
+        // RFC 8945, section 5.2: a request whose TSIG record is misplaced,
+        // duplicated or cannot be interpreted is answered with a plain
+        // FORMERR, and so is a MAC of an impossible size (section 5.2.2.1).
+        // There may not even be a TSIG record to copy into the response.
+        if matches!(
+            self.0,
+            ServerErrorInner::Unsigned { error } if error == TsigRcode::FORMERR
+        ) {
+            return Ok(builder.start_answer(msg, Rcode::FORMERR)?.additional());
+        }
         let builder = builder.start_answer(msg, Rcode::NOTAUTH)?;
         let mut builder = builder.additional();
         match self.0 {
